@@ -1,11 +1,14 @@
 #!/bin/bash
-# confirm every delivered seeded mutant not yet recorded
+# confirm every delivered seeded mutant not yet recorded (first wave: Cxx-out, second wave: Cxxb-out)
 cd /verif
 for d in /tmp/seed/C*-out/mutant-*; do
   [ -f "$d/patch.diff" ] || continue
   p=$(basename $(dirname $d)); p=${p%-out}
   m=$(basename $d); m=${m#mutant-}
-  id="$p-m$m"
+  case "$p" in
+    *b) prop=${p%b}; id="$prop-w2m$m" ;;
+    *)  prop=$p; id="$p-m$m" ;;
+  esac
   [ -f "seeded/$id/meta.json" ] && continue
-  python3 tools/confirm_seed.py $p $d $id 2>&1 | tail -1
+  python3 tools/confirm_seed.py $prop $d $id 2>&1 | tail -1
 done
